@@ -51,3 +51,24 @@ package destination
 //@   modifies dest.lockMatcher.held
 //@   ensures[filter]   result == matchSpec(dest.Matcher, s[..])
 //@   ensures[unlocked] !dest.lockMatcher.held
+
+// ---------------------------------------------------------------- constructor parameters that cannot work (C14)
+// The tickers, the I/O buffer and the queue sizes must be usable, or the constructor refuses.
+//@ spec destParamsOK(d *Destination) bool := d.periodFlush > 0 && d.periodReConn > 0 && d.ioBufSize > 0 && d.connBufSize >= 0
+//@      && (d.Spool ==> d.SpoolSyncPeriod > 0 && d.SpoolBufSize >= 0)
+//@
+//@ func New(routeName string, matcher matcher.Matcher, addr string, spoolDir string, spool bool, pickle bool, periodFlush time.Duration, periodReConn time.Duration, connBufSize int, ioBufSize int, spoolBufSize int, spoolMaxBytesPerFile int64, spoolSyncEvery int64, spoolSyncPeriod time.Duration, spoolSleep time.Duration, unspoolSleep time.Duration) (dest *Destination, err error)
+//@   property C14,C20
+//@   modifies *
+//@   ensures[rejects_unusable; C14] err == nil ==> dest != nil && destParamsOK(dest)
+//@   ensures[stores_each_parameter; C20] err == nil ==> dest.Spool == spool && dest.Pickle == pickle && dest.periodFlush == periodFlush && dest.periodReConn == periodReConn
+//@        && dest.connBufSize == connBufSize && dest.ioBufSize == ioBufSize && dest.SpoolBufSize == spoolBufSize && dest.SpoolMaxBytesPerFile == spoolMaxBytesPerFile
+//@        && dest.SpoolSyncEvery == spoolSyncEvery && dest.SpoolSyncPeriod == spoolSyncPeriod && dest.SpoolSleep == spoolSleep && dest.UnspoolSleep == unspoolSleep
+//@        && dest.SpoolDir == spoolDir && dest.RouteName == routeName
+//@
+//@ func NewWriter(w io.Writer, size int, key string) *Writer
+//@   property C05,C14
+//@   requires[positive_size; C14] size > 0
+//@   requires w != nil
+//@   modifies *
+//@   ensures[rep; C05] result != nil && len(result.buf) == size && result.n == 0 && result.wr == w && result.err == nil
